@@ -480,7 +480,11 @@ func kRun(r *vk.Run, prop string, scenarios []kScenario, c09, c13 bool, rule str
 				}
 			}
 			if !found {
-				vk.Fatalf("replay: action %s not enabled", name)
+				var en []string
+				for _, e := range k.enabled(sc.Alphabet, sc.Budget) {
+					en = append(en, e.String())
+				}
+				vk.Fatalf("replay: action %s not enabled; enabled: %v; state: %s", name, en, k.stateKey(nil, sc.Budget, ""))
 			}
 		}
 		k.close()
@@ -581,6 +585,15 @@ func TestVerifC09(t *testing.T) {
 		}
 		scs = append(scs, kScenario{Name: "ws-" + init, Initial: init, ChanCap: 8, Budget: b, Horizon: h, Alphabet: kAlphabet(len(init), len(init) > 1)})
 	}
+	// repeated requests for one space (the queue then holds several entries for it): one more operation than the
+	// general scenarios, over plot/mine/stop only
+	var pms []kAction
+	for _, a := range kAlphabet(1, false) {
+		if a.Op == "plot" || a.Op == "mine" || a.Op == "stop" {
+			pms = append(pms, a)
+		}
+	}
+	scs = append(scs, kScenario{Name: "ws-R-repeated-requests", Initial: "R", ChanCap: 8, Budget: vk.Pick(r, 4, 5), Horizon: h + 6, Alphabet: pms})
 	if r.Thorough() {
 		scs = append(scs, kScenario{Name: "ws-RRY", Initial: "RRY", ChanCap: 8, Budget: 3, Horizon: h, Alphabet: kAlphabet(3, false)})
 	}
